@@ -21,6 +21,7 @@ def mk_meta(rng, b, with_name=None):
         "client": rng.choice(["aw-watcher-window", "c"]),
         "hostname": rng.choice(["host", "höst"]),
         "created_us": T0 - rng.randint(0, 10**9) * 1000,
+        "created_off": rng.choice([0, 0, 120, -330, 765]),
         "data": rng.choice([None, "{}", json.dumps({"k": [1, "x", None]}), json.dumps({"a": {"b": "c"}})]),
     }
     if with_name if with_name is not None else rng.random() < 0.5:
